@@ -662,6 +662,7 @@ func main() {
 	run.DistinctN(strCases)
 	run.Set("string_boundary_cases", strCases)
 	run.Sample(map[string]interface{}{"type": "string", "tag": 254, "len": 256, "head_bytes": fmt.Sprintf("%x", refcodec.AppendString(nil, make([]byte, 256), 254)[:8])})
+	tupPhase()
 	run.SetExhaustive(false)
 	run.Set("exhaustive_subspace", "bool/int8/uint8/int16/uint16 x tags 0..255 x all values is enumerated completely; wider types are sampled")
 	run.Finish()
